@@ -3,6 +3,7 @@ import Tw.Gen.Snap
 import Tw.Proofs.SnapRaw
 import Tw.Proofs.SnapTotal
 import Tw.Proofs.SnapAccepted
+import Tw.Proofs.SnapDeltaWF
 
 /-!
 # C11 — snapshot and delta parsers are total and enforce their limits
@@ -69,6 +70,18 @@ theorem read_delta_accepts_wf (objSize : Nat → Option Nat) {src : Src} {d : De
     (hs : src.AllI32) (h : readDelta objSize src = .ok (d, ws)) :
     Sorted d.updated ∧ ∀ p ∈ d.updated, I32 p.1 ∧ ∀ v ∈ p.2, I32 v :=
   readDelta_I32 objSize hs h
+
+/-- What `Delta::read` accepts (from fewer than 2^31 integers / bytes) is a well-formed delta in
+the sense of C09's `Delta.WF` — sorted set of deleted `i32` keys, sorted map of `i32` updates,
+sizes that fit — up to the one thing the reader only warns about: a key both deleted and updated.
+If `DeleteUpdate` was not warned, it *is* `Delta.WF` (so C09's wire round trip applies to it). -/
+theorem read_delta_accepts_delta_wf (objSize : Nat → Option Nat) {src : Src} {d : Delta} {ws : List Warning}
+    (hs : src.AllI32) (hsize : src.size < 2147483648) (h : readDelta objSize src = .ok (d, ws)) :
+    SortedSet d.deleted ∧ (∀ k ∈ d.deleted, I32 k) ∧ Sorted d.updated ∧
+    (∀ p ∈ d.updated, I32 p.1 ∧ ∀ x ∈ p.2, I32 x) ∧
+    d.deleted.length < 2147483648 ∧ d.updated.length < 2147483648 ∧ dataLen d.updated < 2147483648 ∧
+    (Warning.deleteUpdate ∉ ws → d.WF) :=
+  readDelta_accepts_WF objSize hs hsize h
 
 /-- Applying any delta whatsoever to any accepted snapshot never panics … -/
 theorem apply_delta_total {a : Snap} (ha : a.raw.WF) (d : Delta) : ∀ p, a.readWithDelta d ≠ .panic p :=
